@@ -562,9 +562,17 @@ def drop_index(line):
               "theorems registered: break primitives agree on LF / CR LF / CR; character tests are break-blind; the whole-scanner relational theorem is not attempted"])
 def c14(tier, rng):
     res = Result()
-    res.rule = "every CR-free text of the C01 input space, under the two substitutions; non-trivial = contains a line feed and the scanner delivers more than StreamStart/StreamEnd or an error"
+    res.rule = "every CR-free text of the C01 input space plus multi-line flow keys of 1000..1100 characters (the simple-key limit counts characters, CR LF adds one per line), under the two substitutions; non-trivial = contains a line feed and the scanner delivers more than StreamStart/StreamEnd or an error"
     res.corr_ops = ['evt str on the CRLF variant']
     texts = [t for t in c01_space(tier, rng) if '\r' not in t]
+    # keys that span lines, of lengths around the 1024-character simple-key limit: the limit counts characters, and a
+    # CR LF text has one more per line — flow keys (no limit applies) and quoted/plain block keys (the limit applies:
+    # LF and CR LF may legitimately differ only by the index, so only flow forms are generated here)
+    for lines in (2, 5, 10, 20):
+        for total in (1000, 1015, 1017, 1020, 1023, 1024, 1025, 1030, 1100):
+            w = max(1, (total - 3 * (lines - 1)) // lines)
+            body = '\n  '.join(['a' * w] * lines)
+            texts += ['{ ' + body + ': v }\n', '[ ' + body + ': v ]\n', '{ "' + body + '": v }\n', '{ ? ' + body + '\n  : v }\n']
     reqs = []
     for t in texts:
         reqs += [f'evt str 128 0 {hx(t)}', f'evt str 128 0 {hx(t.replace(chr(10), chr(13) + chr(10)))}',
@@ -760,7 +768,7 @@ def is_d12b(text, tail):
               "theorems registered: peek/next laws on the Api model by induction over histories"])
 def c17(tier, rng):
     res = Result()
-    res.rule = "inputs of the C01 space with at most 10 events: all peek/next histories up to a length bound; longer inputs: random histories; push multi on/off vs iterator; non-trivial = stream with a document or an error; distinct by (text, history)"
+    res.rule = "inputs of the C01 space with at most 10 events: all peek/next histories up to a length bound; longer inputs: random histories; push multi on/off vs iterator (also on nests 100..1000 deep around 2^8 open collections: block sequences, explicit keys, block around flow, block mappings); non-trivial = stream with a document or an error; distinct by (text, history)"
     res.corr_ops = ['api', 'psh 1', 'psh 0']
     texts = c01_space(tier, rng, 0.5)
     ev = run_impl([f'evt str 128 0 {hx(t)}' for t in texts])
@@ -804,6 +812,13 @@ def c17(tier, rng):
             res.samples.append({'text': t[:60], 'history': h, 'results': impl[n][:200]})
     # push vs pull
     extra = ['--- &a x\n--- *a\n', '&a x\n---\n*a\n', '- &a x\n...\n- *a\n', '&a [1]\n--- &b [*a]\n--- [*b, *a]\n']
+    # nesting around the widths of small counters (2^8, 2^16 open collections): block, explicit keys, block around flow,
+    # growing-indentation block mappings, also in a second document
+    for d in (100, 254, 255, 256, 257, 300, 1000) + ((65535, 65536, 65537) if tier == 'thorough' else ()):
+        extra += ['- ' * d + 'x\n', '? ' * d + 'x\n', '- ? ' * (d // 2 + 1) + 'x\n', 'a\n--- \n' + '- ' * d + 'x\n... \n- y\n']
+        if d <= 1000:
+            extra += ['- ' * (d - 100) + '[' * 100 + 'x' + ']' * 100 + '\n' if d > 100 else '- ' * d + '[x]\n',
+                      ''.join(' ' * i + 'k:\n' for i in range(d)) + ' ' * d + 'v\n']
     ev = ev + run_impl([f'evt str 128 0 {hx(t)}' for t in extra])
     texts = texts + extra
     preqs = []
@@ -1805,7 +1820,7 @@ def iters_of(a):
 def c18(tier, rng):
     res = Result()
     L = 4 if tier == 'quick' else 6
-    res.rule = f"texts (ASCII, Latin, CJK, astral; lengths 0..4k, mostly short) x 6 encodings x 4 traps; every byte string of length <= {L} over the ten bytes of the property x 4 traps; random and truncated byte strings; non-trivial = a non-empty byte string; distinct by (bytes, trap)"
+    res.rule = f"texts (ASCII, Latin, CJK, astral; lengths 0..4k, mostly short) x 6 encodings x 4 traps; every byte string of length <= {L} over the ten bytes of the property x 4 traps; random and truncated byte strings (UTF-8 ones: the strict error's offset and bytes, and the documents under a callback that records the bytes it is shown, against Python's UTF-8 decoder); non-trivial = a non-empty byte string; distinct by (bytes, trap)"
     res.corr_ops = ['snf (detect_utf16_endianness vs Encoding.detectUtf16: every byte string of the run and all one- and two-byte prefixes)']
     r = rng.fork('c18')
     pools = ['ab:- [],\n', 'aé ü\n', 'a中文字-\n', 'a\U0001D11E\U0001F600 \n', 'k: v\n- a\n']
@@ -1881,6 +1896,27 @@ def c18(tier, rng):
         reqs.append(f'dec s {hxb(bom + rest)}')
         meta.append(('bom', bom + rest, enc, 's', (t, rf)))
     impl = run_impl(reqs)
+    # independent expectation for byte strings that are sniffed as UTF-8 without a byte-order mark (first byte ASCII,
+    # no NUL in second position): Python's UTF-8 decoder names the malformed sequences (maximal subparts, as WHATWG)
+    import codecs
+    def _rec(e):
+        return ('<' + e.object[e.start:e.end].hex() + '>', e.end)
+    codecs.register_error('vp-record', _rec)
+    utf8_expect = {}
+    want_reqs, want_idx = [], []
+    for n, (kind, x, name, trap, rf) in enumerate(meta):
+        if kind != 'bytes' or trap not in ('s', 'c') or not x or not (0 < x[0] < 0x80) or (len(x) > 1 and x[1] == 0):
+            continue
+        if trap == 's':
+            try:
+                x.decode('utf-8', 'strict')
+            except UnicodeDecodeError as e:
+                utf8_expect[n] = ('err', f'Invalid character sequence at {e.start}: {list(x[e.start:e.end])}')
+        else:
+            want_reqs.append(f'lod y e {hx(x.decode("utf-8", "vp-record"))}')
+            want_idx.append(n)
+    for n, w in zip(want_idx, run_impl(want_reqs)):
+        utf8_expect[n] = ('docs', w)
     # correspondence of the sniffing model (Encoding.detectUtf16): every byte string of the run, plus
     # every two-byte prefix
     import itertools as _it
@@ -1921,6 +1957,16 @@ def c18(tier, rng):
         else:
             if trap == 's' and not (body.startswith('OK') or body.startswith('DECERR') or body.startswith('ERR')):
                 why = 'strict trap: neither documents nor an error'
+            exp = utf8_expect.get(n)
+            if not why and exp is not None:
+                kindexp, val = exp
+                if kindexp == 'err':
+                    # strict trap: the error names the first malformed sequence (offset and bytes), per an independent decoder
+                    msg = unhx(body.split(' ')[1]) if body.startswith('DECERR') and len(body.split(' ')) > 1 else body
+                    if msg != val:
+                        why = f'strict trap on UTF-8 bytes: the decode error should be {val!r}, got {msg[:80]!r}'
+                elif body != val:
+                    why = 'callback trap on UTF-8 bytes: the callback is shown the wrong bytes, or decoding does not continue after it (documents differ from loading the independently decoded text with the recorded sequences)'
         if why:
             res.oracle_failures.append({'sig': sig or usig(reqs[n]), 'what': why, 'reqs': [reqs[n]], 'input': (repr(x[:60]) + f' encoding={name} trap={trap}'),
                                         'detail': {'decoded': a[:300], 'direct': (rf or '')[:300]}})
@@ -1961,7 +2007,7 @@ def top_pairs(tokens):
               "theorems registered: see Props/C20.lean (lookup model: the four ways agree; found iff a string key equals k)"])
 def c20(tier, rng):
     res = Result()
-    res.rule = "random flow mappings over a pool of 36 key spellings (strings, numbers, null, booleans, quoted, tagged, anchored, collection and empty keys) x probes drawn from the keys' texts and absent strings x 4 node kinds x {eager, lazy}; integer indexing of sequences and mappings; non-trivial = mapping with at least two keys; distinct by (text, probe, kind, mode)"
+    res.rule = "random flow mappings over a pool of 36 key spellings (strings, numbers, null, booleans, quoted, tagged, anchored, collection and empty keys) x probes drawn from the keys' texts and absent strings x 4 node kinds x {eager, lazy}; integer indexing of sequences and mappings; long keys (255..4096 characters or bytes, ASCII and multi-byte; flow, explicit and implicit block keys) probed with themselves and near misses; non-trivial = mapping with at least two keys; distinct by (text, probe, kind, mode)"
     res.corr_ops = ['get (the four string lookups and integer indexing: Lookup.lean vs the four node types)', 'lod (the loaded mapping)']
     r = rng.fork('c20')
     cases = []
@@ -1981,6 +2027,20 @@ def c20(tier, rng):
         nk = r.choice(['y', 'yo', 'm', 'mo'])
         mode = 'e' if r.chance(4, 5) else 'l'
         cases.append((text, probe, idx, nk, mode))
+    # long keys, around the byte and character counts where length-based shortcuts and small counters would bite
+    # (255/256, 1023/1024/1025 — the simple-key limit, in characters and in bytes —, 4096, 65535/65536), in a flow
+    # mapping, as an explicit block key and as an implicit block key; ASCII, two- and three-byte characters
+    longs = []
+    for n in (255, 256, 257, 1023, 1024, 1025, 2000, 4096) + ((65535, 65536, 70000) if tier == 'thorough' else ()):
+        longs += ['k' * n, 'é' * (n // 2 + 1), '中' * (n // 3 + 1)]
+    for K in longs:
+        shapes = [f'{{a: 1, {K}: v, b: 2}}\n', f'a: 1\n? {K}\n: v\nb: 2\n']
+        if len(K) <= 1024:
+            shapes.append(f'a: 1\n{K}: v\nb: 2\n')
+        for text in shapes:
+            for probe in (K, K[:-1], K + 'x', 'a'):
+                for nk in ('y', 'yo', 'm', 'mo'):
+                    cases.append((text, probe, '-', nk, 'e' if r.chance(3, 4) else 'l'))
     reqs = []
     for text, probe, idx, nk, mode in cases:
         reqs += [f'get {nk} {mode} {hx(probe)} {idx} {hx(text)}', f'lod y {mode} {hx(text)}']
@@ -2104,7 +2164,7 @@ def c11(tier, rng):
     res = Result()
     # powers of two are where fixed-width counters wrap: 2^8 (flow level), 2^16
     depths = [1, 10, 100, 255, 256, 257, 1000, 10000, 30000, 65535, 65536, 70000] + ([100000, 140000] if tier == 'thorough' else [])
-    res.rule = f"nesting depth in {depths} x shape (block sequence, block mapping, explicit key, flow sequence, flow mapping, alternating) x API (iterator, push, load_from_str + drop, emit); plus one-line mixtures: 31 fixed and random units of block/flow indicators and properties ('- ', '? ', ': ', '- : ', ': ? ', '- &a ', '[(a: ', ...) repeated to depth 10..100000 x iterator/push/loader; non-trivial = depth >= 10"
+    res.rule = f"nesting depth in {depths} x shape (block sequence, block mapping, explicit key, flow sequence, flow mapping, alternating) x API (iterator, push, load_from_str + drop, emit); plus one-line mixtures: 31 fixed and random units of block/flow indicators and properties ('- ', '? ', ': ', '- : ', ': ? ', '- &a ', '[(a: ', ...) repeated to depth 10..100000 x iterator/push/loader, the block ones also closed by a '---' / '...' line instead of the end of input; non-trivial = depth >= 10"
     res.corr_ops = []
     def run(api, shape, depth):
         try:
@@ -2130,6 +2190,11 @@ def c11(tier, rng):
     # flow units also come with their closers, so that the nesting is well-formed at every depth
     closers = {'[': ']', '{': '}', '{a: ': '}', '[{a: ': '}]', '{a: [': ']}', '[[{a: ': '}]]', '{? ': '}', '[? ': ']', '[: ': ']', '{: ': '}'}
     unit_shapes = [(u, f'rep:{hx(u)}:{hx("a")}') for u in units] + [(u, f'rep:{hx(u)}:{hx("a")}:{hx(c)}') for u, c in closers.items()]
+    # block nests closed by a document marker instead of the end of the input (every open level is unrolled at once)
+    for u in units:
+        if '[' not in u and '{' not in u:
+            for tail in ('a\n--- b\n', 'a\n...\n'):
+                unit_shapes.append((u, f'rep:{hx(u)}:{hx(tail)}'))
     for u, shape in unit_shapes:
         for d in mdepths:
             jobs.append(('iter', shape, d))
